@@ -173,6 +173,13 @@ func fetchPkgEnums(pa *packages.Package) enumsMap {
 		}
 		// per the spec, only basic types may be constant
 
+		// an enum is defined by the constants of its own package : a constant
+		// typed by a type of another package (const Default = colors.Red)
+		// does not add a member to it
+		if named.Obj().Pkg() != pa.Types {
+			continue
+		}
+
 		comment := fetchConstComment(pa, decl)
 		if strings.Contains(comment, IgnoreDeclComment) { // this value does not implies an enum
 			continue
